@@ -70,6 +70,10 @@ def encode(v):
         return {"__corr__": [None if x is None else float(x[0].value) for x in v.content],
                 "prange": encode(v.prange), "tag": encode(v.tag)}
     if tn == "Obs":
+        if len(v.names) >= 1 and all(n in v.idl for n in v.names):
+            return {"__obsfull__": {n: [encode(v.idl[n] if isinstance(v.idl[n], range) else list(v.idl[n])),
+                                        [float(x) for x in (v.deltas[n] + v.r_values[n])]] for n in v.names},
+                    "reweighted": bool(v.reweighted)}
         return {"__obs__": float(v.value)}
     return {"__repr__": repr(v)}
 
@@ -96,6 +100,10 @@ def decode(v):
             c = native_corr(v["__corr__"], prange=decode(v.get("prange")))
             c.tag = decode(v.get("tag"))
             return c
+        if "__obsfull__" in v:
+            from contracts.obsmodel import native_obs_from
+            return native_obs_from({"chains": {n: (decode(x[0]), x[1]) for n, x in v["__obsfull__"].items()},
+                                    "reweighted": v.get("reweighted")})
         if "__obs__" in v:
             from contracts.corr import native_obs
             return native_obs(v["__obs__"])
